@@ -22,6 +22,7 @@ import (
 	"encoding/base64"
 	"fmt"
 	"io"
+	"math"
 
 	"encoding/xml"
 
@@ -449,7 +450,12 @@ func maybeDeflate(data []byte, maxSize int64, decoder func([]byte) error) error 
 		maxSize = defaultMaxDecompressedResponseSize
 	}
 
-	lr := io.LimitReader(flate.NewReader(bytes.NewReader(data)), maxSize+1)
+	// Read one byte beyond the limit to detect oversized bodies (without overflowing for the largest limit)
+	readLimit := maxSize
+	if readLimit < math.MaxInt64 {
+		readLimit++
+	}
+	lr := io.LimitReader(flate.NewReader(bytes.NewReader(data)), readLimit)
 
 	deflated, err := io.ReadAll(lr)
 	if err != nil {
